@@ -2,6 +2,7 @@
 error (DESIGN.md §7 C08)."""
 import json
 
+import code_tie
 import vlib
 import jsonx_common as J
 
@@ -25,6 +26,7 @@ META = {
 
 PROOFS = ["theories/Props/C08.vo"]
 STATEMENT_FILES = ["theories/Props/C08.v", "theories/Jsonx/ConstsGen.v"]
+SEMANTIC_TIE = code_tie.functions("C08")   # Go bodies proved equal to the model (Props/C08Code.v)
 
 
 scan_state = J.scan_state
@@ -83,6 +85,7 @@ def run(ck):
         ck.discharged = list(ck.obligations)
     if ck.thorough and proofs_ok:
         ck.coqchk(["Verif.Props.C08"])
+    code_tie.run(ck, "C08")
 
     cases = J.run_harness(ck, "c08", n)
     shrunk = set()
